@@ -7,6 +7,12 @@ import Sessions.Proofs.Global.Own01Ops
 import Sessions.Proofs.Global.Own01
 import Sessions.Proofs.Global.Rotate04Ops
 import Sessions.Proofs.Global.Rotate04
+import Sessions.Proofs.Global.Active03Ops
+import Sessions.Proofs.Global.Active03
+import Sessions.Proofs.Global.Faulty11Ops
+import Sessions.Proofs.Global.Faulty11Store
+import Sessions.Proofs.Global.Faulty11Sim
+import Sessions.Proofs.Global.Faulty11
 /-!
 # History-level ("T-global") theorems for C01, C03, C04, C07, C08 (namespace `Sx.Glob`)
 
@@ -24,5 +30,18 @@ import Sessions.Proofs.Global.Rotate04
 * `Rotate04Ops`, `Rotate04` — C04: ghost `G4` (`repl`, `root`), trace judgment `Fine`, invariant `RI`/`Rot4`, `rot4_step`,
                  `rot4_all_histories`, `c04_rotated_once`, `c04_never_full_again`, `c04_one_target`,
                  `c04_replaced_not_minted`, `c04_req_mints`, `c04_one_mint_per_due_id`, `c04_presented_mints_once`,
-                 `c04_same_session`, `c04_same_handle`; proviso `Op4OK` (no `crashinside`)
+                 `c04_same_session`, `c04_same_handle` (crash points inside operations included: `effEvs`)
+* `Faulty11Ops`, `Faulty11Store`, `Faulty11Sim`, `Faulty11` — C11 and the fault side of C09, histories WITH store faults,
+                 EVERY oracle: structural invariant `SInv`/`WSInv` (`Inv` minus coherence minus `wf`), `*_smono` per
+                 model function, `sinv_step`, `sinv_all_histories` (side condition `OpOKs`: no codec switch);
+                 `applyEvs`, `follows_*`, `store_follows_events`, `step_store_follows_events`, `step_store_frozen`,
+                 `hist_store_follows_events`, `c11_failed_call_changes_nothing`; `sim_*`, `step_eq_clear`,
+                 `step_inv_of_not_faulted`; `c09_ack_saved_global`, `c09_created_saved_global`, `hlogin_ok_saved'`;
+                 `start_failed_load_quiet`, `start_del_cases`, `c11_no_silent_loss`, `c11_del_only_by_invalidation`,
+                 `c11_failed_load_global`; ghost `taint`, `cohf_all_histories_partial`, `coh_lost_only_by_shown_fault`,
+                 `c09_untainted_crash_equiv`; findings `wf_fails_under_faults`, `pkScript` (the per-id dirty-set
+                 statement is false in the model)
+* `Active03Ops`, `Active03` — C03: ghost `G3` (`served`, `lastOK`), relation `KM`, invariant `KS`/`Knows`, `knows_step`,
+                 `knows_all_histories`, `c03_active_not_stale`, `c03_expired_sound_global`, `c03_active_kept_id_partial`,
+                 `c03_active_kept_partial`; provisos `Op3OK` (cache enabled, no cache loss, time forward), `AcceptAll`
 -/
